@@ -88,10 +88,29 @@ case "${1:-}" in
         rm -f "$ROOT"/replays/*.json
         tier="${VERIF_TIER:-$1}"
         [ "$1" = thorough ] && tier=thorough
-        exec "$BIN" check --tier "$tier" --seed "${VERIF_SEED:-1}" \
-          --evidence "$ROOT/evidence/C18.json" --replay-dir "$ROOT/replays" --known "$ROOT/KNOWN_FINDINGS.json" \
-          --real-bins "$GENSIM/target/realbins/debug" --real-cwd "$GENSIM/target/realws/unic-langid-impl" \
-          --becheck "$ROOT/becheck"
+        check() {
+          "$BIN" check --tier "$tier" --seed "${VERIF_SEED:-1}" \
+            --evidence "$ROOT/evidence/C18.json" --replay-dir "$ROOT/replays" --known "$ROOT/KNOWN_FINDINGS.json" \
+            --real-bins "$GENSIM/target/realbins/debug" --real-cwd "$GENSIM/target/realws/unic-langid-impl" \
+            --becheck "$ROOT/becheck"
+        }
+        check; rc=$?
+        case $rc in
+          0|1|2) exit $rc ;;
+        esac
+        # The simulator process itself died (abort, stack overflow, kill): some simulated run took
+        # the process down with it - e.g. a threaded program whose destructors use synchronisation
+        # primitives while a panic of its own unwinds (a second panic aborts). That is a property of
+        # one run, not a verdict: repeat the check with every simulated run in a forked child, where
+        # a dying run is a failed run and is judged as one.
+        echo "NOTE: the simulator process died (exit status $rc); repeating the check with every simulated run in a forked child process" >&2
+        rm -f "$ROOT"/replays/*.json
+        GENSIM_ISOLATE=1 check; rc=$?
+        case $rc in
+          0|1|2) exit $rc ;;
+        esac
+        echo "HARNESS-ERROR: the simulator process died again (exit status $rc) with every run in a child process" >&2
+        exit 2
         ;;
       *) echo "usage: ./run.sh C18 quick|thorough|--replay <file>" >&2; exit 2 ;;
     esac
